@@ -393,17 +393,28 @@ func (w *vfpWorld) step(in vfpIn) vfpStep {
 	st := vfpStep{In: in}
 
 	switch in.A {
-	case "AddPublisher":
+	case "AddPublisher", "AddPublisherBad":
 		c := w.client(w.pubs, in.C)
 		w.outstanding.Add(1)
+		bad := in.A == "AddPublisherBad"
 		go func() {
+			desc := vfpDesc()
+			if bad {
+				// RTP packets of a packetization the server cannot decode: SubStream.Initialize fails
+				desc.Medias[0].Formats[0].(*format.H264).PacketizationMode = 2
+			}
 			res, err := w.pm.AddPublisher(defs.PathAddPublisherReq{
 				Author:        c,
-				Desc:          vfpDesc(),
+				Desc:          desc,
+				UseRTPPackets: bad,
 				AccessRequest: defs.PathAccessRequest{Name: w.name, Publish: true, SkipAuth: true},
 			})
 			if err != nil {
-				w.log(vfpEvent{T: "resp", C: in.C, V: vfpErrKind(err)})
+				k := vfpErrKind(err)
+				if bad && k == "err_other" {
+					k = "err_init"
+				}
+				w.log(vfpEvent{T: "resp", C: in.C, V: k})
 			} else {
 				c.path = res.Path
 				w.log(vfpEvent{T: "resp", C: in.C, V: "stream", S: w.streamNo(res.SubStream.Stream)})
